@@ -103,7 +103,9 @@ class Builder:
 
     def b_Edit(self, r):
         sid, g = self.glyph()
-        return self._leaf(r, S.SpyEdit(sid, g, self.log, r.get("cap", 0), r["len"], r.get("pos", 0), r.get("wrap", "any"), bool(r.get("capsp"))), sid, g)
+        text, mask, as_bytes = edit_text_of(r, g)
+        w = S.SpyEdit(sid, g, self.log, r.get("cap", 0), r["len"], r.get("pos", 0), r.get("wrap", "any"), bool(r.get("capsp")), text, mask, as_bytes)
+        return self._leaf(r, w, sid, g)
 
     def b_Icon(self, r):
         sid, g = self.glyph()
@@ -232,6 +234,38 @@ class Builder:
         return Node("ScrollBar", urwid.ScrollBar(c.w, side=r.get("side", "right"), width=r.get("w", 1)), r, [c])
 
 
+TXT_PATTERNS = {
+    "comb": ["e", "\u0301"],  # every second code point is zero-width
+    "wide": ["\u6f22"],  # double-width characters
+    "mixed": ["a", "\u0301", "\u6f22", "b", "\u0308", "\u0327"],
+    "plain": ["x", "y", "z"],
+}
+
+
+def edit_text_of(r, glyph):
+    """(real text | None, mask | None, bytes?) of an Edit recipe.  r['len'] is always the number of cells the edit text
+    occupies on the canvas: code points (bytes for a bytes Edit) when masked, glyph characters otherwise."""
+    as_bytes = bool(r.get("bytes")) and ord(glyph) < 128
+    if r.get("mask"):
+        pat = TXT_PATTERNS[r.get("txt", "plain")]
+        n = r["len"]
+        text = ""
+        i = 0
+        while True:
+            ch = pat[i % len(pat)]
+            if (len((text + ch).encode("utf-8")) if as_bytes else len(text + ch)) > n:
+                break
+            text += ch
+            i += 1
+        while (len(text.encode("utf-8")) if as_bytes else len(text)) < n:
+            text += "q"
+        return text, glyph, as_bytes
+    if r.get("nl") is not None and r["len"] >= 2:
+        k = max(1, min(r["len"] - 1, r["nl"]))
+        return glyph * k + "\n" + glyph * (r["len"] - k), None, as_bytes
+    return None, None, as_bytes
+
+
 def build(recipe, log):
     return Builder(log).build(recipe)
 
@@ -267,6 +301,17 @@ def depth_of(r) -> int:
 def kinds_of(r, out=None):
     out = set() if out is None else out
     out.add(r["k"] if r["k"] != "spy" else "spy-" + r["mode"])
+    if r["k"] == "Edit":
+        if r.get("mask"):
+            out.add("Edit-masked-" + r.get("txt", "plain"))
+        if r.get("nl") is not None:
+            out.add("Edit-multiline")
+        if r.get("bytes"):
+            out.add("Edit-bytes")
+        if r.get("cap", 0) >= 3:
+            out.add("Edit-long-caption")
+    if r["k"] in ("Pile", "Columns") and any(o[0] == "weight" and o[1] == 0 for o, _c in r["items"]):
+        out.add(r["k"] + "-weight0")
     for c in children_of(r):
         kinds_of(c, out)
     return out
@@ -443,7 +488,20 @@ class Gen:
             n = rng.randint(0, 7)
             cap = rng.choice([0, 0, 1, 2, 3, 5, 7, 9, 12, 16])
             r = {"k": "Edit", "cap": cap, "len": n, "pos": rng.randint(0, n), "wrap": rng.choice(["any", "any", "clip", "space", "space"])}
-            if cap >= 3:
+            y = rng.random()
+            if y < 0.3 and n >= 2:
+                # masked: the real text (combining marks / wide characters) is hidden behind mask == glyph
+                r["mask"] = True
+                r["txt"] = rng.choice(["comb", "comb", "wide", "mixed", "plain"])
+                r["len"] = n = rng.randint(2, 14)
+                r["pos"] = rng.choice([0, n])
+                r["wh"] = rng.choice([n + cap + 2, max(2, n // 2), max(2, n // 3), 3, 4, 5])
+            elif y < 0.42 and n >= 2:
+                r["nl"] = rng.randint(1, n - 1)  # explicit newline inside the (unmasked) text
+            if rng.random() < 0.15:
+                r["bytes"] = True
+                r["pos"] = rng.choice([0, n])
+            if cap >= 3 and "wh" not in r:
                 # captions that wrap at the width the Edit gets: longer than the line, exactly filling it, one short of it
                 r["capsp"] = rng.random() < 0.5  # caption ends in a blank (word wrapping then leaves caption-only rows)
                 r["wh"] = rng.choice([cap + n + 2, cap + 1, cap, cap, cap - 1, max(2, cap // 2), max(2, cap // 3)])
@@ -554,14 +612,14 @@ class Gen:
                 elif x < 0.8:
                     items.append([["plain"], self.tree("flow", d)])
                 else:
-                    items.append([["weight", rng.randint(1, 3)], self.tree("flow", d)])
+                    items.append([["weight", rng.choice([0, 0, 1, 1, 2, 3])], self.tree("flow", d)])  # weight 0 is documented; a flow item keeps its natural height
             else:
                 if x < 0.25:
                     items.append([["given", rng.randint(1, 4)], self.tree("box", d)])
                 elif x < 0.55:
                     items.append([["pack"], self.tree("flow", d)])
                 elif x < 0.8:
-                    items.append([["weight", rng.randint(1, 3)], self.tree("box", d)])
+                    items.append([["weight", rng.choice([0, 1, 1, 1, 2, 2, 3, 3])], self.tree("box", d)])
                 else:
                     items.append([["plain"], self.tree("box", d)])
         if mode == "box" and not any(o[0] in ("weight", "plain") for o, _c in items):
@@ -581,7 +639,7 @@ class Gen:
             if x < 0.25:
                 opt = ["given", rng.randint(1, 10)]
             elif x < 0.65:
-                opt = ["weight", rng.randint(1, 3)]
+                opt = ["weight", rng.choice([0, 1, 1, 1, 1, 2, 2, 2, 3, 3, 3])]
             elif x < 0.8:
                 opt = ["plain"]
             else:
